@@ -48,7 +48,7 @@ type RealmSetup struct {
 func (rs RealmSetup) config() *router.RealmConfig {
 	rc := &router.RealmConfig{
 		URI: wamp.URI(rs.Name), StrictURI: rs.Strict, AnonymousAuth: true, AllowDisclose: rs.AllowDisclose,
-		Authenticators: []auth.Authenticator{&tableAuth{roles: authTable}}, EnableMetaKill: rs.MetaKill,
+		Authenticators: []auth.Authenticator{&tableAuth{roles: authTable}, auth.NewCRAuthenticator(c04Keys{}, time.Minute)}, EnableMetaKill: rs.MetaKill,
 		Authorizer: rs.Authorizer, RequireLocalAuthz: rs.RequireLocalAuthz, MetaStrict: rs.MetaStrict,
 	}
 	for _, h := range rs.History {
